@@ -446,7 +446,6 @@ compile:
 		vtrace("BmSetLoc", task, m)
 		task.Status.Printf("done: %s", reply.Vals)
 		task.Scope.Reset(&reply.Scope)
-		task.Set(TaskOk)
 		vtrace("BmOkSet", task, m)
 		m.Assign(task)
 	case ctx.Err() != nil:
